@@ -14,6 +14,10 @@
 #include "impl/hash_impl.h"
 
 typedef int (*c06_calc_fn)(const void*, int, const char*, KSI_DataHash**);
+#ifdef C06_ENCLOSE
+struct c06_enclose_ghost { int trusted_calls, trusted_alg, trusted; int zero_calls, zero_alg, zero_res; KSI_DataHash *zero; int zero_free, mac_free, other_free;
+	int pdu_free_calls; const void *pdu_free_hdr, *pdu_free_req; const KSI_DataHash *pdu_free_mac; int req_free_calls; const void *req_freed; } g_en;
+#endif
 /* ---- ghost state of pdu_verifyHmac ---- */
 int g_vh_calc_calls;                 /* number of calls of the call-back */
 const void *g_vh_calc_pdu;           /* its arguments */
@@ -57,13 +61,6 @@ int KSI_DataHash_equals(const KSI_DataHash *left, const KSI_DataHash *right) {
 	return g_vh_eq_res;
 }
 
-void KSI_DataHash_free(KSI_DataHash *hsh) {
-	if (hsh == NULL) return;
-	g_vh_free_calls++;
-	if (hsh != g_vh_calc_out) { g_vh_free_foreign = 1; return; }
-	free(hsh);
-}
-
 const char *KSI_getHashAlgorithmName(KSI_HashAlgorithm id) { return "alg"; }
 
 /* ---- ghost state of the MAC computation (KSI_*Pdu_calculateHmac, pdu_calculateHmac, pdu_calculateHmac_v2) ---- */
@@ -84,6 +81,9 @@ struct c06_calc_ghost {
 	KSI_CTX *mac_ctx; int mac_alg; const char *mac_key; const unsigned char *mac_data; size_t mac_len;
 	int mac_res; KSI_DataHash *mac_out;
 	unsigned char mac_wit_byte; int mac_wit_valid;   /* byte of the MAC input seen at the witness index */
+	/* arguments of KSI_*Pdu_calculateHmac and the MAC element the PDU held at that moment (recorded through the contract:
+	 * preset by the enforcing harness, set by a replaced call) */
+	const void *call_t; int call_alg; const char *call_key; const KSI_DataHash *call_placeholder;
 } g_c06;
 unsigned g_hl;                         /* inputs chosen by the harness */
 size_t g_mac_wit;
@@ -107,6 +107,17 @@ size_t g_mac_wit;
 #define g_mac_out g_c06.mac_out
 #define g_mac_wit_byte g_c06.mac_wit_byte
 #define g_mac_wit_valid g_c06.mac_wit_valid
+
+void KSI_DataHash_free(KSI_DataHash *hsh) {
+	if (hsh == NULL) return;
+#ifdef C06_ENCLOSE
+	if (hsh == g_en.zero) g_en.zero_free++; else if (hsh == g_mac_out) g_en.mac_free++; else g_en.other_free++;
+	return;
+#endif
+	g_vh_free_calls++;
+	if (hsh != g_vh_calc_out) { g_vh_free_foreign = 1; return; }
+	free(hsh);
+}
 
 #ifdef C06_CALC_STUBS
 int KSI_TlvTemplate_serializeObject(KSI_CTX *ctx, const void *obj, unsigned tag, int isNc, int isFwd,
@@ -160,6 +171,16 @@ int KSI_HMAC_create(KSI_CTX *ctx, KSI_HashAlgorithm algo_id, const char *key, co
 }
 #endif
 
+#ifdef C06_ENCLOSE
+/* ---- enclose jobs: trusted-algorithm verdict, zero placeholder, releases ---- */
+int KSI_isHashAlgorithmTrusted(KSI_HashAlgorithm a) { g_en.trusted_calls++; g_en.trusted_alg = a; g_en.trusted = nondet_bool(); return g_en.trusted; }
+int KSI_DataHash_createZero(KSI_CTX *ctx, KSI_HashAlgorithm a, KSI_DataHash **h) {
+	static KSI_DataHash z;
+	g_en.zero_calls++; g_en.zero_alg = a; g_en.zero_res = nondet_int();
+	if (g_en.zero_res == KSI_OK) { z.imprint[0] = (unsigned char)a; g_en.zero = &z; *h = &z; }
+	return g_en.zero_res;
+}
+#endif
 #define C06_PDU_ASSUMED \
 	"KSI_DataHash_getHashAlg: stub with the body of hash.c:516 (algorithm = first imprint byte)", \
 	"KSI_DataHash_equals: arbitrary relation, false on NULL, true on identical pointers (env/c06_pdu.h)", \
